@@ -215,22 +215,25 @@ end Inc
 
 namespace Dep
 
-/-- the service graph: vertex ↦ children, both in name order (`utils.MapKeys` sorts) -/
-abbrev G := List (String × List String)
+/-- a directed graph: vertex ↦ children, in the order the code visits them (for `graph.checkCycle`: service names,
+both in name order since `utils.MapKeys` sorts; for the YAML node check of loader/reset.go: node indices) -/
+abbrev G (α : Type) := List (α × List α)
 
-def children (g : G) (v : String) : List String :=
+variable {α : Type} [DecidableEq α]
+
+def children (g : G α) (v : α) : List α :=
   match g with
   | [] => []
   | (k, cs) :: r => if v = k then cs else children r v
 
-inductive R where
+inductive R (α : Type) where
   | ok
-  | cycle (path : List String)     -- "dependency cycle detected: a -> b -> a"
+  | cycle (path : List α)     -- "dependency cycle detected: a -> b -> a"
   | outOfFuel
 deriving Repr, DecidableEq, Inhabited
 
 /-- the loop of `searchCycle` over `v.children` (`search` = the recursive call) -/
-def searchChildren (search : List String → String → R) (path : List String) : List String → R
+def searchChildren (search : List α → α → R α) (path : List α) : List α → R α
   | [] => .ok
   | name :: rest =>
     if name ∈ path then .cycle (path.dropWhile (· ≠ name) ++ [name])
@@ -239,19 +242,19 @@ def searchChildren (search : List String → String → R) (path : List String) 
       | r => r
 
 /-- `searchCycle(path, v)`; `fuel` bounds the depth of the search -/
-def searchCycle (g : G) : Nat → List String → String → R
+def searchCycle (g : G α) : Nat → List α → α → R α
   | 0, _, _ => .outOfFuel
   | fuel + 1, path, v => searchChildren (searchCycle g fuel) path (children g v)
 
 /-- `checkCycle`: start a search at every vertex -/
-def checkFrom (g : G) (fuel : Nat) : List String → R
+def checkFrom (g : G α) (fuel : Nat) : List α → R α
   | [] => .ok
   | v :: rest =>
     match searchCycle g fuel [v] v with
     | .ok => checkFrom g fuel rest
     | r => r
 
-def checkCycle (g : G) (fuel : Nat) : R := checkFrom g fuel (g.map Prod.fst)
+def checkCycle (g : G α) (fuel : Nat) : R α := checkFrom g fuel (g.map Prod.fst)
 
 end Dep
 end CV.C01
